@@ -214,6 +214,9 @@ Print R.
 func main() {
 	only := flag.String("kinds", "", "comma separated kinds (default all)")
 	cfg := vh.ParseFlags()
+	if cfg.Shard == 250 { // cases are small; starting coqc costs more than evaluating a shard
+		cfg.Shard = 1200
+	}
 	sel := map[string]bool{}
 	for _, s := range strings.Split(*only, ",") {
 		if s != "" {
@@ -259,6 +262,7 @@ func main() {
 		for _, c := range k.gen(r, cfg.Thorough()) {
 			out = append(out, run(c))
 		}
-		vh.Emit(cfg, name, header(k), footer(k), out, map[string]interface{}{"exhaustive_part": true})
+		vh.Emit(cfg, name, header(k), footer(k), out, map[string]interface{}{
+			"exhaustive": "origin 'exhaustive' = every operation sequence over the stream's alphabet up to the stated length on the smallest pools (quick: length 2 + a sample of length 3; thorough: length 4-5), followed by a fixed observation suffix (lookups, stats, fill to exhaustion)"})
 	}
 }
